@@ -11,6 +11,8 @@
 (*   {"ev":"settle"}                            end of the epoch's reads                   *)
 (*   {"ev":"sent","n":2,"early":true,"newleader":false,"tvchanged":true,"count":1}         *)
 (*                                              white-box: see TSent                       *)
+(*   {"ev":"replayed","n":2,"wal_last":57,"raft_last":57}   white-box: see TReplayed       *)
+(*   {"ev":"published","n":1,"pub":9,"saved":8}             white-box: see TPublished      *)
 (*                                                                                         *)
 (* Silent steps are taken just in time (only when the next line is an answer or a read that *)
 (* needs it), which loses no linearization: a silent step commutes to the right over lines    *)
@@ -67,7 +69,22 @@ TLinZ == /\ \E id \in DOMAIN zomb : NeedLoc(zomb[id].k) /\ LinearizeZ(id)
 TSent == /\ IsEvent("sent") /\ (E.early => (E.newleader \/ ~E.tvchanged))
          /\ Consume /\ UNCHANGED <<linVars, reads>>
 
-TNext == TSent \/ TReset \/ TInv \/ TOk \/ TFail \/ TRefused \/ TRead \/ TSettle \/ TLin \/ TLinZ
+(* White-box restart rule (hooks verifWalRead / verifReplayed in replayWAL / restartNode):    *)
+(* after a restart raft's log holds every entry the WAL returned - entries above the         *)
+(* persisted commit index included: another replica may have acknowledged them to the leader *)
+(* on the strength of this copy.                                                             *)
+TReplayed == /\ IsEvent("replayed") /\ E.raft_last >= E.wal_last
+             /\ Consume /\ UNCHANGED <<linVars, reads>>
+
+(* White-box publish rule (hooks verifReady / ready.published / persist.wal): no entry is    *)
+(* handed to the apply loop unless this node has saved it to its WAL (in this Ready, before  *)
+(* the publish, or in an earlier one).  The hooks only report Readys that published an index *)
+(* above the largest saved one; every such report is a step the design does not have.        *)
+(* (The publish side of TSent; a Ready that carries a snapshot is exempt by design.)         *)
+TPublished == /\ IsEvent("published") /\ E.pub <= E.saved
+              /\ Consume /\ UNCHANGED <<linVars, reads>>
+
+TNext == TSent \/ TReplayed \/ TPublished \/ TReset \/ TInv \/ TOk \/ TFail \/ TRefused \/ TRead \/ TSettle \/ TLin \/ TLinZ
 TSpec == TInit /\ [][TNext]_tvars
 
 (* all replicas returned the same data after the barrier (independent of the silent steps) *)
